@@ -107,8 +107,9 @@ Definition open_loops_ok : list (list Z * nat) := [
   ([104;97;110;100;108;101;95;111;99;95;98;108;111;99;107;95;108;105;116;101;114;97;108], 1%nat);
   (* handle_oc_message_decl: 'while (true)' with breaks on null chunk / terminator *)
   ([104;97;110;100;108;101;95;111;99;95;109;101;115;115;97;103;101;95;100;101;99;108], 1%nat);
-  (* indent_text: positive test on the NEXT chunk (IsParenClose), false on the null chunk *)
-  ([105;110;100;101;110;116;95;116;101;120;116], 1%nat);
+  (* indent_text: positive test on the NEXT chunk (IsParenClose), false on the null chunk; do-while over the frame stack that only
+     repeats while the stack shrank; do-while 'pc != tmp' towards a later chunk of the same list (ends at the null chunk if tmp is null) *)
+  ([105;110;100;101;110;116;95;116;101;120;116], 3%nat);
   (* mark_function: walks from the open paren to its matching close paren found before *)
   ([109;97;114;107;95;102;117;110;99;116;105;111;110], 1%nat);
   (* mark_variable_definition: go_on() is false on the null chunk *)
@@ -117,6 +118,16 @@ Definition open_loops_ok : list (list Z * nat) := [
   ([109;97;116;99;104;95;118;97;114;105;97;98;108;101;95;115;116;97;114;116], 1%nat);
   (* process_return_or_throw: steps back over trailing comments; IsComment() on the chunk fetched is false on the null chunk *)
   ([112;114;111;99;101;115;115;95;114;101;116;117;114;110;95;111;114;95;116;104;114;111;119], 1%nat);
+  (* Chunk::GetPpStart: do-while: IsPreproc() on the chunk just fetched is false on the null chunk *)
+  ([67;104;117;110;107;58;58;71;101;116;80;112;83;116;97;114;116], 1%nat);
+  (* nl_create_list_liner: do-while 'tmp != closing': closing was found walking forward from the same chunk, or is the null chunk, which the walk reaches *)
+  ([110;108;95;99;114;101;97;116;101;95;108;105;115;116;95;108;105;110;101;114], 1%nat);
+  (* EnumStructUnionParser::mark_pointer_types: do-while: IsPointerReferenceOrQualifier() is a positive type test, false on the null chunk *)
+  ([69;110;117;109;83;116;114;117;99;116;85;110;105;111;110;80;97;114;115;101;114;58;58;109;97;114;107;95;112;111;105;110;116;101;114;95;116;121;112;101;115], 1%nat);
+  (* EnumStructUnionParser::mark_type: do-while: IsPointerOrReference() is a positive type test, false on the null chunk *)
+  ([69;110;117;109;83;116;114;117;99;116;85;110;105;111;110;80;97;114;115;101;114;58;58;109;97;114;107;95;116;121;112;101], 1%nat);
+  (* EnumStructUnionParser::try_post_identify_type: do-while bounded by chunk_is_between(m_start, m_end) *)
+  ([69;110;117;109;83;116;114;117;99;116;85;110;105;111;110;80;97;114;115;101;114;58;58;116;114;121;95;112;111;115;116;95;105;100;101;110;116;105;102;121;95;116;121;112;101], 1%nat);
   (* newlines_if_for_while_switch_pre_blank_lines: positive test (IsNewline) on the chunk just fetched *)
   ([110;101;119;108;105;110;101;115;95;105;102;95;102;111;114;95;119;104;105;108;101;95;115;119;105;116;99;104;95;112;114;101;95;98;108;97;110;107;95;108;105;110;101;115], 1%nat)
 ].
